@@ -87,16 +87,21 @@ def run_history(case):
             targets.append(None)
     status = []
     Power = _imports()[0]
+    stored = watts(m.get_target_power(IDS))
+    # adjust_to_bounds is probed with the case's values and with the target currently in force
+    probes = list(case.get("adjust", []))
+    if stored is not None and case.get("prios") and stored not in probes:
+        probes.append(stored)
     for q in case.get("prios", []):
         rep = m.get_status(IDS, q, cur)
         b = rep.bounds
         bl = None if b is None else [watts(b.lower), watts(b.upper)]
         adj = []
-        for v in case.get("adjust", []):
+        for v in probes:
             a = rep.adjust_to_bounds(Power.from_watts(v * SCALE))
             adj.append([watts(a[0]), watts(a[1])])
         status.append({"prio": q, "bounds": bl, "adjust": adj})
-    return {"targets": targets, "stored": watts(m.get_target_power(IDS)), "status": status}
+    return {"targets": targets, "stored": stored, "status": status, "probes": probes}
 
 
 # ----------------------------------------------------------------------------- independent bookkeeping
@@ -194,7 +199,7 @@ def case_term(case, obs):
     qs = []
     for st in obs["status"]:
         b = "None" if st["bounds"] is None else f"(Some ({cZ(st['bounds'][0])}, {cZ(st['bounds'][1])}))"
-        adj = "[" + "; ".join(f"({cZ(v)}, ({copt(a[0])}, {copt(a[1])}))" for v, a in zip(case.get("adjust", []), st["adjust"])) + "]"
+        adj = "[" + "; ".join(f"({cZ(v)}, ({copt(a[0])}, {copt(a[1])}))" for v, a in zip(obs.get("probes", case.get("adjust", [])), st["adjust"])) + "]"
         qs.append(f"({cZ(st['prio'])}, {b}, {adj})")
     return f"({cZ(case.get('max_age8', 480) * 125000)}, {c_sys(case['sys'])}, {ev}, {exp}, [{'; '.join(qs)}])"
 
